@@ -123,3 +123,24 @@ Lemma callback_holds_a_prefix_proof :
     p_seen (fst (feed raises keep pump0 (run_stream out c w l))) ++ snd (feed raises keep pump0 (run_stream out c w l))
     = run_stream out c w l.
 Proof. intros. apply pump_conserves_proof. Qed.
+
+(** the run builtin restores the listener: over any sequence of runs, with and without callbacks, in any order, the
+    project's own listener is the current one at the end and has received exactly the streams of the runs without a
+    callback, in order *)
+Lemma session_restores_gen : forall (A : Type) (runs : list (bool * list A)) got,
+  fold_left (run1 true) runs (LBase, got) = (LBase, got ++ plain_streams runs).
+Proof.
+  intros A; induction runs as [|[cb evs] runs IH]; intros got; cbn [fold_left].
+  - unfold plain_streams. cbn. now rewrite app_nil_r.
+  - unfold run1 at 2. cbn [fst snd]. destruct cb.
+    + rewrite IH. reflexivity.
+    + rewrite IH. unfold plain_streams. cbn [filter fst negb map snd concat]. now rewrite app_assoc.
+Qed.
+
+Lemma session_restores_proof : forall (A : Type) (runs : list (bool * list A)),
+  session true runs = (LBase, plain_streams runs).
+Proof. intros. unfold session. now rewrite session_restores_gen. Qed.
+
+Lemma no_restore_refuted_proof :
+  exists runs : list (bool * list bool), snd (session false runs) <> plain_streams runs.
+Proof. exists [(true, []); (false, [true])]. discriminate. Qed.
